@@ -581,7 +581,7 @@ func (r *RefRun) decide(s *Step) bool {
 			r.setAll(s.ID, pluginOutputs, nil, U)
 			return true
 		}
-		enabled = v == nil || v == true
+		enabled = v == nil || refTruth(v)
 	}
 	if !enabled {
 		oc.What = "disabled"
@@ -641,6 +641,9 @@ func (r *RefRun) decide(s *Step) bool {
 		if k, ok := sc.ByValue[inp.V]; ok {
 			kind = k
 		}
+	}
+	if sc.ReadSchemaFails {
+		kind = env.RunSchemaMismatch // the start fails when the schema cannot be read: same life story
 	}
 	if inp == nil {
 		// the input does not fit the plugin schema: the engine must have refused it earlier
@@ -749,7 +752,7 @@ func (r *RefRun) decideForeach(s *Step) bool {
 			r.setAll(s.ID, foreachOutputs, nil, Unknown)
 			return true
 		}
-		enabled = v == nil || v == true
+		enabled = v == nil || refTruth(v)
 	}
 	if !enabled {
 		oc.What = "disabled"
@@ -953,4 +956,22 @@ func (r *RefRun) Summary() string {
 		}
 	}
 	return fmt.Sprintf("[%s] -> %s unique=%v", strings.Join(parts, " "), res, r.Unique)
+}
+
+// refTruth: the boolean a bool-typed field takes (YAML literals are strings the bool schema converts).
+func refTruth(v any) bool {
+	switch x := v.(type) {
+	case bool:
+		return x
+	case string:
+		switch strings.ToLower(x) {
+		case "true", "yes", "y", "on", "1", "enable", "enabled":
+			return true
+		}
+	case int64:
+		return x == 1
+	case int:
+		return x == 1
+	}
+	return false
 }
